@@ -4,7 +4,7 @@ import json
 import os
 import shutil
 
-from . import common, pipeline, scenarios as S, tla
+from . import canary, common, pipeline, scenarios as S, tla
 from . import d_specclass as D
 
 MC_PROPS = ["InvTypeOK", "InvFresh"], ["PropAtomic", "PropSetAttrIsWith", "PropCowEqualsInplace", "PropIfFalse"]
@@ -55,6 +55,10 @@ def collect(rep, names, tier, *, act_filter=None, max_pairs=None, seed=0, fault_
         env = {"VERIF_SCN": scnp}
         result = pipeline.run_judged(_table, jobs, "J_SpecClass", replay_fn=_replay, key_fn=_key, nontrivial_fn=_nontrivial, env=env, chunk=12000)
         rep.mark("drive+judge")
+        # binding canaries: corrupted copies of real events must be rejected by the judge
+        frozen = {n for n in names if any(c["frozen"] or c["dnc"] for c in S.SCENARIOS[n]["classes"].values())}
+        pipeline.canaries(rep, "J_SpecClass", result["samples"], canary.specclass_for(frozen), env=env, want=16)
+        rep.mark("canaries")
         if fault_pairs:
             # crash points: a deterministic sample of copy-on-write (state, action) pairs per scenario, each aborted at its executed library lines
             import random
